@@ -42,6 +42,7 @@ package caseconversion
 //@   requires wf_table: tableOK()
 //@   loop 0:
 //@     invariant 0 <= lastBoundary && lastBoundary <= len(s)
+//@     iter_ensures C19_no_text_is_skipped_without_being_emitted: lastBoundary - old(lastBoundary) > 1 ==> len(words) > old(len(words))
 
 //@ func caseconversion.DecodeGoCamelCase(s) (words, err)
 //@   props C19
@@ -68,9 +69,12 @@ package caseconversion
 //@   requires wf_table: tableOK()
 //@   loop 0:
 //@     decreases len(s)
+//@     invariant C19_what_was_cut_off_was_emitted: len(s) == len(old(s)) || len(words) >= 1
 //@   loop 1:
 //@     invariant len(s) <= atloop(0, len(s))
 //@     invariant initialismFound ==> len(s) < atloop(0, len(s))
+//@     invariant C19_what_was_cut_off_was_emitted: len(s) == len(old(s)) || len(words) >= 1
+//@   ensures C19_a_non_empty_run_yields_at_least_one_word: len(old(s)) > 0 ==> len(words) >= 1
 
 //@ func caseconversion.decodeLowerCaseWithSplitChar(splitChar, typeName, s) (words, err)
 //@   props C19
